@@ -1,4 +1,4 @@
-"""C07 finding (not fixed): assign_confidence(psms, scores=None) chooses the best feature of every collection itself
+"""F25 reproducer (C07; repaired in /repo by 269116b): assign_confidence(psms, scores=None) chooses the best feature of every collection itself
 (confidence.py: `feat, _, _, desc = _psms.find_best_feature(eval_fdr)`) but drops `desc`: descs stays [True, ...].
 For a collection whose best feature is LOWER-is-better the PSMs are ranked, competed and given q-values with HIGH
 values first, i.e. by the worst possible ordering of the feature that was chosen because it is the best one.
